@@ -366,7 +366,7 @@ def r5(ctx):
   why = 'a peer that stops answering pings must be detected: the connection is shut down (failing in-flight requests) if no Rping arrives in time'
   sp = prog.func(TM, 'SocketTransportSink._SendPingMessage')
   for ev, ex in enum_paths(ctx, sp):
-    new = [i for i, e in enumerate(ev) if e.kind == 'stmt' and isinstance(e.node, ast.Assign) and U(e.node.targets[0]) == 'self._ping_ar' and U(e.node.value) == 'AsyncResult()']
+    new = [i for i, e in enumerate(ev) if e.kind == 'stmt' and isinstance(e.node, ast.Assign) and U(e.node.targets[0]) == 'self._ping_ar' and resolved_text(ev, i, e.node.value) == 'AsyncResult()']
     put = [i for i, e in enumerate(ev) if e.kind == 'call' and U(e.node.func) == 'self._send_queue.put' and 'self._ping_msg' in U(e.node)]
     arm = [i for i, e in enumerate(ev) if e.kind == 'call' and call_name(e.node) == 'gevent.spawn' and U(e.node.args[0]) == 'self._PingTimeoutHelper']
     ok = len(new) == 1 and len(put) == 1 and len(arm) == 1 and new[0] < arm[0]
